@@ -441,8 +441,9 @@ pub fn execute(scenario: &[usize], prefix: &[usize], dir: &PathBuf) -> Outcome {
             out.problem.get_or_insert(("machinery".into(), "main-loop thread returned nothing".into()));
         }
     }
-    // each open/change publishes at least once (for every file of the workspace it selects)
-    let notifications = 1 + scenario.iter().filter(|&&m| !is_request(m)).count() as u32;
+    // each open/change that brings a new text or a new root publishes at least once; a resend of the
+    // text the document already has is processed once its handler returns (a server may skip the rest)
+    let notifications = 1 + scenario.iter().filter(|&&m| !is_request(m) && (m == 0 || m == 1 || is_fresh_doc(m))).count() as u32;
     if published < notifications && out.problem.is_none() {
         out.problem = Some(("notification-not-processed".into(), format!("{published} publications for {notifications} open/change notifications")));
     }
